@@ -111,356 +111,402 @@ func TestTamperedBlocksRejected(t *testing.T) {
 	rapid.Check(t, func(t *rapid.T) {
 		opt := sim.Options{MinActors: 3, MaxActors: 9, Replicas: 2, MaxReplicas: 4, Steps: 22, MaxTxPerStep: 6}
 		opt.BeforeDeliver = func(h *sim.History, proposer *sim.Replica, blk *types.Block) bool {
-			w := h.W
-			v := w.Replicas[1] // the validating replica
-			if proposer == v {
-				v = w.Replicas[0]
-			}
-			interesting := len(blk.Body.Transactions) > 0 || blk.Header.Flags() != 0
-			// tamper every interesting block and a sample of the plain ones
-			if !interesting && rapid.IntRange(0, 3).Draw(t, "tamperPlain") != 0 {
-				return true
-			}
-			prev := v.Head()
-			pos := rapid.IntRange(0, 255).Draw(t, "bitPos")
-			var other *types.Block
-			if len(h.Blocks) > 0 {
-				other = h.Blocks[rapid.IntRange(0, len(h.Blocks)-1).Draw(t, "otherBlock")]
-			}
-			var ops []tamper
-			add := func(field, op string, f func(b *types.Block) bool) { ops = append(ops, tamper{field, op, f}) }
-			hashField := func(name string, get func(b *types.Block) *common.Hash, fromOther func(o *types.Block) common.Hash) {
-				add(name, "bitflip", func(b *types.Block) bool { p := get(b); copy(p[:], flipBit(p[:], pos)); return true })
-				add(name, "zero", func(b *types.Block) bool { p := get(b); *p = common.Hash{}; return true })
-				add(name, "inc", func(b *types.Block) bool { p := get(b); p[31]++; return true })
-				if other != nil && fromOther != nil {
-					add(name, "from-other-block", func(b *types.Block) bool { p := get(b); *p = fromOther(other); return true })
-				}
-			}
-			flagOps := func(get func(b *types.Block) *types.BlockFlag) {
-				for _, f := range []types.BlockFlag{types.IdentityUpdate, types.FlipLotteryStarted, types.ShortSessionStarted, types.LongSessionStarted, types.AfterLongSessionStarted, types.ValidationFinished, types.Snapshot, types.NewGenesis} {
-					f := f
-					add("Flags", "toggle-"+sim.FlagNames(f), func(b *types.Block) bool { p := get(b); *p ^= f; return true })
-				}
-			}
-			if blk.IsEmpty() {
-				eh := func(b *types.Block) *types.EmptyBlockHeader { return b.Header.EmptyBlockHeader }
-				hashField("ParentHash", func(b *types.Block) *common.Hash { return &eh(b).ParentHash }, func(o *types.Block) common.Hash { return o.Hash() })
-				hashField("Root", func(b *types.Block) *common.Hash { return &eh(b).Root }, func(o *types.Block) common.Hash { return o.Root() })
-				hashField("IdentityRoot", func(b *types.Block) *common.Hash { return &eh(b).IdentityRoot }, func(o *types.Block) common.Hash { return o.IdentityRoot() })
-				hashField("BlockSeed", func(b *types.Block) *common.Hash { return (*common.Hash)(&eh(b).BlockSeed) }, func(o *types.Block) common.Hash { return common.Hash(o.Seed()) })
-				add("Height", "+1", func(b *types.Block) bool { eh(b).Height++; return true })
-				add("Height", "-1", func(b *types.Block) bool { eh(b).Height--; return true })
-				add("Time", "+1", func(b *types.Block) bool { eh(b).Time++; return true })
-				add("Time", "-1", func(b *types.Block) bool { eh(b).Time--; return true })
-				flagOps(func(b *types.Block) *types.BlockFlag { return &eh(b).Flags })
-				// a header carrying BOTH parts: the honest empty part plus a proposed part (another block's, re-pointed
-				// at this parent, or a made-up one): the hash the validator compares must cover what gets stored
-				if other != nil && other.Header.ProposedHeader != nil {
-					add("Header", "add-proposed-part-from-other-block", func(b *types.Block) bool {
-						cp := *other.Header.ProposedHeader
-						cp.Height, cp.ParentHash = eh(b).Height, eh(b).ParentHash
-						b.Header.ProposedHeader = &cp
-						return true
-					})
-				}
-				add("Header", "add-made-up-proposed-part", func(b *types.Block) bool {
-					b.Header.ProposedHeader = &types.ProposedHeader{Height: eh(b).Height, ParentHash: eh(b).ParentHash, Time: eh(b).Time, ProposerPubKey: w.Actors[0].Pub,
-						Root: eh(b).Root, IdentityRoot: eh(b).IdentityRoot, Upgrade: uint32(pos)}
-					return true
-				})
-				// an empty block has no body: transactions attached to it are never applied, yet must not be indexed
-				add("Body", "append-tx-to-empty-block", func(b *types.Block) bool {
-					to := w.Actors[1].Addr
-					stx := v.ReadState()
-					tx, _ := types.SignTx(&types.Transaction{Type: types.SendTx, Epoch: stx.State.Epoch(), AccountNonce: stx.State.GetNonce(w.Actors[0].Addr) + 1, To: &to, Amount: big.NewInt(1), MaxFee: sim.Dna(100)}, w.Actors[0].Key)
-					b.Body.Transactions = append(b.Body.Transactions, tx)
-					return true
-				})
-			} else {
-				ph := func(b *types.Block) *types.ProposedHeader { return b.Header.ProposedHeader }
-				hashField("ParentHash", func(b *types.Block) *common.Hash { return &ph(b).ParentHash }, func(o *types.Block) common.Hash { return o.Hash() })
-				hashField("Root", func(b *types.Block) *common.Hash { return &ph(b).Root }, func(o *types.Block) common.Hash { return o.Root() })
-				hashField("IdentityRoot", func(b *types.Block) *common.Hash { return &ph(b).IdentityRoot }, func(o *types.Block) common.Hash { return o.IdentityRoot() })
-				hashField("TxHash", func(b *types.Block) *common.Hash { return &ph(b).TxHash }, func(o *types.Block) common.Hash {
-					if o.Header.ProposedHeader != nil {
-						return o.Header.ProposedHeader.TxHash
-					}
-					return common.Hash{9}
-				})
-				hashField("BlockSeed", func(b *types.Block) *common.Hash { return (*common.Hash)(&ph(b).BlockSeed) }, func(o *types.Block) common.Hash { return common.Hash(o.Seed()) })
-				add("Height", "+1", func(b *types.Block) bool { ph(b).Height++; return true })
-				add("Height", "-1", func(b *types.Block) bool { ph(b).Height--; return true })
-				add("Height", "zero", func(b *types.Block) bool { ph(b).Height = 0; return true })
-				// timestamp window violations
-				add("Time", "prev+9s", func(b *types.Block) bool { ph(b).Time = prev.Time() + 9; return true })
-				add("Time", "prev", func(b *types.Block) bool { ph(b).Time = prev.Time(); return true })
-				add("Time", "now+121s", func(b *types.Block) bool { ph(b).Time = w.Now().Unix() + 121; return true })
-				add("Time", "zero", func(b *types.Block) bool { ph(b).Time = 0; return true })
-				// hostile constants: far past / far future, where duration arithmetic saturates or wraps
-				add("Time", "prev-1", func(b *types.Block) bool { ph(b).Time = prev.Time() - 1; return true })
-				add("Time", "-1", func(b *types.Block) bool { ph(b).Time = -1; return true })
-				add("Time", "min-int64", func(b *types.Block) bool { ph(b).Time = math.MinInt64; return true })
-				add("Time", "min-int64+prev-1", func(b *types.Block) bool { ph(b).Time = math.MinInt64 + prev.Time() - 1; return prev.Time() > 1 })
-				add("Time", "min-int64+drawn", func(b *types.Block) bool { ph(b).Time = math.MinInt64 + int64(pos)*(prev.Time()/256+1); return true })
-				add("Time", "max-int64", func(b *types.Block) bool { ph(b).Time = math.MaxInt64; return true })
-				add("Time", "max-int64-drawn", func(b *types.Block) bool { ph(b).Time = math.MaxInt64 - int64(pos); return true })
-				add("Time", "now+1y", func(b *types.Block) bool { ph(b).Time = w.Now().Unix() + 365*24*3600; return true })
-				flagOps(func(b *types.Block) *types.BlockFlag { return &ph(b).Flags })
-				// a header carrying BOTH parts: the proposed block plus the empty block header of this round
-				add("Header", "add-empty-part", func(b *types.Block) bool {
-					e := v.EmptyBlock()
-					if e.Header.EmptyBlockHeader == nil || e.Height() != b.Height() {
-						return false
-					}
-					cp := *e.Header.EmptyBlockHeader
-					b.Header.EmptyBlockHeader = &cp
-					return true
-				})
-				bytesField := func(name string, get func(b *types.Block) *[]byte, fromOther func(o *types.ProposedHeader) []byte) {
-					add(name, "bitflip", func(b *types.Block) bool { p := get(b); *p = flipBit(*p, pos); return true })
-					add(name, "nil", func(b *types.Block) bool {
-						p := get(b)
-						if len(*p) == 0 {
-							return false
-						}
-						*p = nil
-						return true
-					})
-					add(name, "truncate", func(b *types.Block) bool {
-						p := get(b)
-						if len(*p) < 2 {
-							return false
-						}
-						*p = (*p)[:len(*p)-1]
-						return true
-					})
-					if other != nil && other.Header.ProposedHeader != nil {
-						add(name, "from-other-block", func(b *types.Block) bool {
-							p := get(b)
-							o := fromOther(other.Header.ProposedHeader)
-							if bytes.Equal(o, *p) {
-								return false
-							}
-							*p = append([]byte{}, o...)
-							return true
-						})
-					}
-				}
-				bytesField("TxBloom", func(b *types.Block) *[]byte { return &ph(b).TxBloom }, func(o *types.ProposedHeader) []byte { return o.TxBloom })
-				bytesField("IpfsHash", func(b *types.Block) *[]byte { return &ph(b).IpfsHash }, func(o *types.ProposedHeader) []byte { return o.IpfsHash })
-				bytesField("TxReceiptsCid", func(b *types.Block) *[]byte { return &ph(b).TxReceiptsCid }, func(o *types.ProposedHeader) []byte { return o.TxReceiptsCid })
-				bytesField("SeedProof", func(b *types.Block) *[]byte { return &ph(b).SeedProof }, func(o *types.ProposedHeader) []byte { return o.SeedProof })
-				// two fields tampered together: a zero seed with a proof that does not verify (a verifier that ignores the
-				// proof error compares the seed with the zero value it gets back)
-				for _, pv := range []string{"nil", "empty", "zeros", "truncated", "bitflip", "from-other-block"} {
-					pv := pv
-					add("BlockSeed+SeedProof", "zero-seed+"+pv+"-proof", func(b *types.Block) bool {
-						h := ph(b)
-						h.BlockSeed = types.Seed{}
-						switch pv {
-						case "nil":
-							h.SeedProof = nil
-						case "empty":
-							h.SeedProof = []byte{}
-						case "zeros":
-							h.SeedProof = make([]byte, len(h.SeedProof))
-						case "truncated":
-							if len(h.SeedProof) < 2 {
-								return false
-							}
-							h.SeedProof = h.SeedProof[:len(h.SeedProof)-1]
-						case "bitflip":
-							h.SeedProof = flipBit(h.SeedProof, pos)
-						case "from-other-block":
-							if other == nil || other.Header.ProposedHeader == nil || bytes.Equal(other.Header.ProposedHeader.SeedProof, h.SeedProof) {
-								return false
-							}
-							h.SeedProof = append([]byte{}, other.Header.ProposedHeader.SeedProof...)
-						}
-						return true
-					})
-				}
-				// on a state that has no fee rate yet (the first proposed blocks of a chain) a stated rate equal to the
-				// network minimum is as wrong as any other non-zero rate
-				add("FeePerGas", "network-minimum-on-state-without-rate", func(b *types.Block) bool {
-					cur := v.ReadState()
-					if f := cur.State.FeePerGas(); f != nil && f.Sign() != 0 {
-						return false
-					}
-					ph(b).FeePerGas = fee.GetFeePerGasForNetwork(cur.ValidatorsCache.NetworkSize())
-					return ph(b).FeePerGas.Sign() != 0
-				})
-				// a stated, non-zero but wrong fee rate (an absent rate is the proposer's free choice)
-				add("FeePerGas", "+1", func(b *types.Block) bool {
-					f := ph(b).FeePerGas
-					if f == nil || f.Sign() == 0 {
-						ph(b).FeePerGas = big.NewInt(1 + int64(pos))
-						return v.ReadState().State.FeePerGas().Cmp(ph(b).FeePerGas) != 0
-					}
-					ph(b).FeePerGas = new(big.Int).Add(f, big.NewInt(1))
-					return true
-				})
-				add("FeePerGas", "-1", func(b *types.Block) bool {
-					f := ph(b).FeePerGas
-					if f == nil || f.Cmp(big.NewInt(2)) < 0 {
-						return false
-					}
-					ph(b).FeePerGas = new(big.Int).Sub(f, big.NewInt(1))
-					return true
-				})
-				// ineligible proposers, with seed and proof recomputed for their key
-				st := v.ReadState()
-				for _, a := range w.Actors {
-					a := a
-					vc := st.ValidatorsCache
-					if vc.IsOnlineIdentity(a.Addr) || st.State.GodAddress() == a.Addr && vc.OnlineSize() == 0 {
-						continue
-					}
-					class := "non-identity"
-					if vc.IsValidated(a.Addr) {
-						class = "offline-identity"
-					}
-					add("ProposerPubKey", class, func(b *types.Block) bool {
-						signer, err := p256.NewVRFSigner(a.Key)
-						if err != nil {
-							return false
-						}
-						seedData := append(prev.Seed().Bytes(), common.ToBytes(prev.Height()+1)...)
-						hash, proof := signer.Evaluate(seedData)
-						ph(b).ProposerPubKey = a.Pub
-						ph(b).BlockSeed = hash
-						ph(b).SeedProof = proof
-						return true
-					})
-				}
-				// body edits, with and without recomputing the transaction commitment (and body cid, bloom)
-				n := len(blk.Body.Transactions)
-				for _, rec := range []string{"", "+txhash", "+txhash+cid+bloom"} {
-					rec := rec
-					fix := func(b *types.Block) {
-						switch rec {
-						case "+txhash":
-							b.Header.ProposedHeader.TxHash = types.DeriveSha(types.Transactions(b.Body.Transactions))
-						case "+txhash+cid+bloom":
-							recomputeCommitments(v, b, len(b.Body.Transactions) == 0 || b.Header.ProposedHeader.TxReceiptsCid == nil)
-						}
-					}
-					if n > 0 {
-						i := pos % n
-						add("Body", "drop-tx"+rec, func(b *types.Block) bool {
-							b.Body.Transactions = append(append([]*types.Transaction{}, b.Body.Transactions[:i]...), b.Body.Transactions[i+1:]...)
-							fix(b)
-							return true
-						})
-						add("Body", "duplicate-tx"+rec, func(b *types.Block) bool {
-							b.Body.Transactions = append(b.Body.Transactions, b.Body.Transactions[i])
-							fix(b)
-							return true
-						})
-					}
-					// reordering with ALL commitments recomputed yields a different but consistent block when the two
-					// transactions commute (tx order is the proposer's choice), so it is not a negative
-					if n > 1 && rec != "+txhash+cid+bloom" {
-						i, j := pos%n, (pos/7+1)%n
-						if i != j {
-							add("Body", "swap-txs"+rec, func(b *types.Block) bool {
-								if b.Body.Transactions[i].Hash() == b.Body.Transactions[j].Hash() {
-									return false
-								}
-								b.Body.Transactions[i], b.Body.Transactions[j] = b.Body.Transactions[j], b.Body.Transactions[i]
-								fix(b)
-								return true
-							})
-						}
-					}
-					add("Body", "append-foreign-epoch-tx"+rec, func(b *types.Block) bool {
-						to := w.Actors[1].Addr
-						sender := w.Actors[0]
-						tx, _ := types.SignTx(&types.Transaction{Type: types.SendTx, Epoch: st.State.Epoch() + 1, AccountNonce: 1, To: &to, Amount: big.NewInt(1), MaxFee: sim.Dna(100)}, sender.Key)
-						b.Body.Transactions = append(b.Body.Transactions, tx)
-						fix(b)
-						return true
-					})
-					add("Body", "append-unaffordable-tx"+rec, func(b *types.Block) bool {
-						to := w.Actors[0].Addr
-						sender := w.Actors[len(w.Actors)-1]
-						bal := st.State.GetBalance(sender.Addr)
-						nonce := st.State.GetNonce(sender.Addr) + 1
-						if st.State.GetEpoch(sender.Addr) < st.State.Epoch() {
-							nonce = 1
-						}
-						for _, x := range b.Body.Transactions {
-							if s, _ := types.Sender(x); s == sender.Addr {
-								return false
-							}
-						}
-						tx, _ := types.SignTx(&types.Transaction{Type: types.SendTx, Epoch: st.State.Epoch(), AccountNonce: nonce, To: &to, Amount: new(big.Int).Add(bal, sim.Dna(1)), MaxFee: sim.Dna(100)}, sender.Key)
-						b.Body.Transactions = append(b.Body.Transactions, tx)
-						fix(b)
-						return true
-					})
-				}
-			}
-
-			before := image(v.DB)
-			headBefore, rootBefore, idRootBefore := v.Head().Hash(), v.AppState.State.Root(), v.AppState.IdentityState.Root()
-			verBefore := v.AppState.State.Version()
-			cells := 0
-			for _, op := range ops {
-				c := clone(t, blk)
-				if !op.apply(c) {
-					continue
-				}
-				// (a header with two parts keeps the hash of its proposed part: compare the headers' encodings too)
-				hb1, _ := c.Header.ToBytes()
-				hb2, _ := blk.Header.ToBytes()
-				if c.Hash() == blk.Hash() && len(c.Body.Transactions) == len(blk.Body.Transactions) && bytes.Equal(hb1, hb2) {
-					evid.Count("tamper.discarded_identical")
-					continue
-				}
-				evid.Eval()
-				cells++
-				cell := op.field + "/" + op.op
-				evid.Count("cell." + cell)
-				desc := fmt.Sprintf("%s of %s", cell, sim.BlockDesc(blk))
-				if err := v.Validate(c); err == nil {
-					// A body without one of its transactions and with ALL commitments recomputed is a different but
-					// consistent block when that transaction leaves no trace in the resulting state (e.g. a free
-					// transaction of an account that the same, validation-finishing block clears as dust): then every
-					// derived field does equal the recomputation. Decided by a differential: both blocks are inserted
-					// on copies and must give the same ledger.
-					if op.op == "drop-tx+txhash+cid+bloom" && sameLedgerAfter(v, blk, c) {
-						evid.Count("tamper.dropped_tx_without_effect")
-						continue
-					}
-					t.Fatalf("tampered block accepted by validation: %s\nhistory:\n%s", desc, h.Summary())
-				}
-				if err := v.AddBlock(c); err == nil {
-					t.Fatalf("tampered block inserted: %s\nhistory:\n%s", desc, h.Summary())
-				}
-				if v.Head().Hash() != headBefore || v.AppState.State.Root() != rootBefore || v.AppState.IdentityState.Root() != idRootBefore || v.AppState.State.Version() != verBefore {
-					t.Fatalf("rejected tampered block changed head/state: %s", desc)
-				}
-				if d := sameImage(before, image(v.DB)); d != "" {
-					t.Fatalf("rejected tampered block left a trace in the database (%s): %s", d, desc)
-				}
-				if interesting {
-					evid.NonTrivial(cell + "|" + sim.FlagNames(blk.Header.Flags()) + "|" + fmt.Sprint(len(blk.Body.Transactions) > 0) + "|" + fmt.Sprint(blk.IsEmpty()))
-				}
-			}
-			if interesting {
-				evid.Count("block.interesting_tampered")
-				evid.Sample("tampered-block", fmt.Sprintf("%s: %d tampers", sim.BlockDesc(blk), cells))
-			} else {
-				evid.Count("block.plain_tampered")
-			}
-			_ = strings.Join
-			_ = time.Second
-			return true // the honest original is delivered now and must still insert everywhere
+			return tamperAndCheck(t, h, proposer, blk)
 		}
 		sim.RunHistory(t, opt)
 	})
+}
+
+// tamperAndCheck is the BeforeDeliver hook of the history-based variants: the complete operator set applied to deep
+// copies of the honest block blk, each copy offered to a replica that did not build it. It returns true: the honest
+// original is delivered afterwards and must still insert everywhere.
+func tamperAndCheck(t *rapid.T, h *sim.History, proposer *sim.Replica, blk *types.Block) bool {
+	w := h.W
+	v := w.Replicas[1] // the validating replica
+	if proposer == v {
+		v = w.Replicas[0]
+	}
+	interesting := len(blk.Body.Transactions) > 0 || blk.Header.Flags() != 0
+	{
+		// (remember who is an eligible proposer on this head: keys whose eligibility lapses later are tried again then)
+		s, vc := stateView(v)
+		noteEligible(w, s, vc)
+	}
+	// tamper every interesting block and a sample of the plain ones
+	if !interesting && rapid.IntRange(0, 3).Draw(t, "tamperPlain") != 0 {
+		return true
+	}
+	prev := v.Head()
+	pos := rapid.IntRange(0, 255).Draw(t, "bitPos")
+	var other *types.Block
+	if len(h.Blocks) > 0 {
+		other = h.Blocks[rapid.IntRange(0, len(h.Blocks)-1).Draw(t, "otherBlock")]
+	}
+	var ops []tamper
+	add := func(field, op string, f func(b *types.Block) bool) { ops = append(ops, tamper{field, op, f}) }
+	hashField := func(name string, get func(b *types.Block) *common.Hash, fromOther func(o *types.Block) common.Hash) {
+		add(name, "bitflip", func(b *types.Block) bool { p := get(b); copy(p[:], flipBit(p[:], pos)); return true })
+		add(name, "zero", func(b *types.Block) bool { p := get(b); *p = common.Hash{}; return true })
+		add(name, "inc", func(b *types.Block) bool { p := get(b); p[31]++; return true })
+		if other != nil && fromOther != nil {
+			add(name, "from-other-block", func(b *types.Block) bool { p := get(b); *p = fromOther(other); return true })
+		}
+	}
+	flagOps := func(get func(b *types.Block) *types.BlockFlag) {
+		for _, f := range []types.BlockFlag{types.IdentityUpdate, types.FlipLotteryStarted, types.ShortSessionStarted, types.LongSessionStarted, types.AfterLongSessionStarted, types.ValidationFinished, types.Snapshot, types.NewGenesis} {
+			f := f
+			add("Flags", "toggle-"+sim.FlagNames(f), func(b *types.Block) bool { p := get(b); *p ^= f; return true })
+		}
+	}
+	if blk.IsEmpty() {
+		eh := func(b *types.Block) *types.EmptyBlockHeader { return b.Header.EmptyBlockHeader }
+		hashField("ParentHash", func(b *types.Block) *common.Hash { return &eh(b).ParentHash }, func(o *types.Block) common.Hash { return o.Hash() })
+		hashField("Root", func(b *types.Block) *common.Hash { return &eh(b).Root }, func(o *types.Block) common.Hash { return o.Root() })
+		hashField("IdentityRoot", func(b *types.Block) *common.Hash { return &eh(b).IdentityRoot }, func(o *types.Block) common.Hash { return o.IdentityRoot() })
+		hashField("BlockSeed", func(b *types.Block) *common.Hash { return (*common.Hash)(&eh(b).BlockSeed) }, func(o *types.Block) common.Hash { return common.Hash(o.Seed()) })
+		add("Height", "+1", func(b *types.Block) bool { eh(b).Height++; return true })
+		add("Height", "-1", func(b *types.Block) bool { eh(b).Height--; return true })
+		add("Time", "+1", func(b *types.Block) bool { eh(b).Time++; return true })
+		add("Time", "-1", func(b *types.Block) bool { eh(b).Time--; return true })
+		flagOps(func(b *types.Block) *types.BlockFlag { return &eh(b).Flags })
+		// a header carrying BOTH parts: the honest empty part plus a proposed part (another block's, re-pointed
+		// at this parent, or a made-up one): the hash the validator compares must cover what gets stored
+		if other != nil && other.Header.ProposedHeader != nil {
+			add("Header", "add-proposed-part-from-other-block", func(b *types.Block) bool {
+				cp := *other.Header.ProposedHeader
+				cp.Height, cp.ParentHash = eh(b).Height, eh(b).ParentHash
+				b.Header.ProposedHeader = &cp
+				return true
+			})
+		}
+		add("Header", "add-made-up-proposed-part", func(b *types.Block) bool {
+			b.Header.ProposedHeader = &types.ProposedHeader{Height: eh(b).Height, ParentHash: eh(b).ParentHash, Time: eh(b).Time, ProposerPubKey: w.Actors[0].Pub,
+				Root: eh(b).Root, IdentityRoot: eh(b).IdentityRoot, Upgrade: uint32(pos)}
+			return true
+		})
+		// an empty block has no body: transactions attached to it are never applied, yet must not be indexed
+		add("Body", "append-tx-to-empty-block", func(b *types.Block) bool {
+			to := w.Actors[1].Addr
+			stx := v.ReadState()
+			tx, _ := types.SignTx(&types.Transaction{Type: types.SendTx, Epoch: stx.State.Epoch(), AccountNonce: stx.State.GetNonce(w.Actors[0].Addr) + 1, To: &to, Amount: big.NewInt(1), MaxFee: sim.Dna(100)}, w.Actors[0].Key)
+			b.Body.Transactions = append(b.Body.Transactions, tx)
+			return true
+		})
+	} else {
+		ph := func(b *types.Block) *types.ProposedHeader { return b.Header.ProposedHeader }
+		hashField("ParentHash", func(b *types.Block) *common.Hash { return &ph(b).ParentHash }, func(o *types.Block) common.Hash { return o.Hash() })
+		hashField("Root", func(b *types.Block) *common.Hash { return &ph(b).Root }, func(o *types.Block) common.Hash { return o.Root() })
+		hashField("IdentityRoot", func(b *types.Block) *common.Hash { return &ph(b).IdentityRoot }, func(o *types.Block) common.Hash { return o.IdentityRoot() })
+		hashField("TxHash", func(b *types.Block) *common.Hash { return &ph(b).TxHash }, func(o *types.Block) common.Hash {
+			if o.Header.ProposedHeader != nil {
+				return o.Header.ProposedHeader.TxHash
+			}
+			return common.Hash{9}
+		})
+		hashField("BlockSeed", func(b *types.Block) *common.Hash { return (*common.Hash)(&ph(b).BlockSeed) }, func(o *types.Block) common.Hash { return common.Hash(o.Seed()) })
+		add("Height", "+1", func(b *types.Block) bool { ph(b).Height++; return true })
+		add("Height", "-1", func(b *types.Block) bool { ph(b).Height--; return true })
+		add("Height", "zero", func(b *types.Block) bool { ph(b).Height = 0; return true })
+		// timestamp window violations
+		add("Time", "prev+9s", func(b *types.Block) bool { ph(b).Time = prev.Time() + 9; return true })
+		add("Time", "prev", func(b *types.Block) bool { ph(b).Time = prev.Time(); return true })
+		add("Time", "now+121s", func(b *types.Block) bool { ph(b).Time = w.Now().Unix() + 121; return true })
+		add("Time", "zero", func(b *types.Block) bool { ph(b).Time = 0; return true })
+		// hostile constants: far past / far future, where duration arithmetic saturates or wraps
+		add("Time", "prev-1", func(b *types.Block) bool { ph(b).Time = prev.Time() - 1; return true })
+		add("Time", "-1", func(b *types.Block) bool { ph(b).Time = -1; return true })
+		add("Time", "min-int64", func(b *types.Block) bool { ph(b).Time = math.MinInt64; return true })
+		add("Time", "min-int64+prev-1", func(b *types.Block) bool { ph(b).Time = math.MinInt64 + prev.Time() - 1; return prev.Time() > 1 })
+		add("Time", "min-int64+drawn", func(b *types.Block) bool { ph(b).Time = math.MinInt64 + int64(pos)*(prev.Time()/256+1); return true })
+		add("Time", "max-int64", func(b *types.Block) bool { ph(b).Time = math.MaxInt64; return true })
+		add("Time", "max-int64-drawn", func(b *types.Block) bool { ph(b).Time = math.MaxInt64 - int64(pos); return true })
+		add("Time", "now+1y", func(b *types.Block) bool { ph(b).Time = w.Now().Unix() + 365*24*3600; return true })
+		flagOps(func(b *types.Block) *types.BlockFlag { return &ph(b).Flags })
+		// a header carrying BOTH parts: the proposed block plus the empty block header of this round
+		add("Header", "add-empty-part", func(b *types.Block) bool {
+			e := v.EmptyBlock()
+			if e.Header.EmptyBlockHeader == nil || e.Height() != b.Height() {
+				return false
+			}
+			cp := *e.Header.EmptyBlockHeader
+			b.Header.EmptyBlockHeader = &cp
+			return true
+		})
+		bytesField := func(name string, get func(b *types.Block) *[]byte, fromOther func(o *types.ProposedHeader) []byte) {
+			add(name, "bitflip", func(b *types.Block) bool { p := get(b); *p = flipBit(*p, pos); return true })
+			add(name, "nil", func(b *types.Block) bool {
+				p := get(b)
+				if len(*p) == 0 {
+					return false
+				}
+				*p = nil
+				return true
+			})
+			add(name, "truncate", func(b *types.Block) bool {
+				p := get(b)
+				if len(*p) < 2 {
+					return false
+				}
+				*p = (*p)[:len(*p)-1]
+				return true
+			})
+			if other != nil && other.Header.ProposedHeader != nil {
+				add(name, "from-other-block", func(b *types.Block) bool {
+					p := get(b)
+					o := fromOther(other.Header.ProposedHeader)
+					if bytes.Equal(o, *p) {
+						return false
+					}
+					*p = append([]byte{}, o...)
+					return true
+				})
+			}
+		}
+		bytesField("TxBloom", func(b *types.Block) *[]byte { return &ph(b).TxBloom }, func(o *types.ProposedHeader) []byte { return o.TxBloom })
+		bytesField("IpfsHash", func(b *types.Block) *[]byte { return &ph(b).IpfsHash }, func(o *types.ProposedHeader) []byte { return o.IpfsHash })
+		bytesField("TxReceiptsCid", func(b *types.Block) *[]byte { return &ph(b).TxReceiptsCid }, func(o *types.ProposedHeader) []byte { return o.TxReceiptsCid })
+		bytesField("SeedProof", func(b *types.Block) *[]byte { return &ph(b).SeedProof }, func(o *types.ProposedHeader) []byte { return o.SeedProof })
+		// two fields tampered together: a zero seed with a proof that does not verify (a verifier that ignores the
+		// proof error compares the seed with the zero value it gets back)
+		for _, pv := range []string{"nil", "empty", "zeros", "truncated", "bitflip", "from-other-block"} {
+			pv := pv
+			add("BlockSeed+SeedProof", "zero-seed+"+pv+"-proof", func(b *types.Block) bool {
+				h := ph(b)
+				h.BlockSeed = types.Seed{}
+				switch pv {
+				case "nil":
+					h.SeedProof = nil
+				case "empty":
+					h.SeedProof = []byte{}
+				case "zeros":
+					h.SeedProof = make([]byte, len(h.SeedProof))
+				case "truncated":
+					if len(h.SeedProof) < 2 {
+						return false
+					}
+					h.SeedProof = h.SeedProof[:len(h.SeedProof)-1]
+				case "bitflip":
+					h.SeedProof = flipBit(h.SeedProof, pos)
+				case "from-other-block":
+					if other == nil || other.Header.ProposedHeader == nil || bytes.Equal(other.Header.ProposedHeader.SeedProof, h.SeedProof) {
+						return false
+					}
+					h.SeedProof = append([]byte{}, other.Header.ProposedHeader.SeedProof...)
+				}
+				return true
+			})
+		}
+		// on a state that has no fee rate yet (the first proposed blocks of a chain) a stated rate equal to the
+		// network minimum is as wrong as any other non-zero rate
+		add("FeePerGas", "network-minimum-on-state-without-rate", func(b *types.Block) bool {
+			cur := v.ReadState()
+			if f := cur.State.FeePerGas(); f != nil && f.Sign() != 0 {
+				return false
+			}
+			ph(b).FeePerGas = fee.GetFeePerGasForNetwork(cur.ValidatorsCache.NetworkSize())
+			return ph(b).FeePerGas.Sign() != 0
+		})
+		// a stated, non-zero but wrong fee rate (an absent rate is the proposer's free choice)
+		add("FeePerGas", "+1", func(b *types.Block) bool {
+			f := ph(b).FeePerGas
+			if f == nil || f.Sign() == 0 {
+				ph(b).FeePerGas = big.NewInt(1 + int64(pos))
+				return v.ReadState().State.FeePerGas().Cmp(ph(b).FeePerGas) != 0
+			}
+			ph(b).FeePerGas = new(big.Int).Add(f, big.NewInt(1))
+			return true
+		})
+		add("FeePerGas", "-1", func(b *types.Block) bool {
+			f := ph(b).FeePerGas
+			if f == nil || f.Cmp(big.NewInt(2)) < 0 {
+				return false
+			}
+			ph(b).FeePerGas = new(big.Int).Sub(f, big.NewInt(1))
+			return true
+		})
+		// ineligible proposers (judged on the validator set loaded from v's identity state at its head, see stateView),
+		// with seed and proof recomputed for their key
+		st, vc := stateView(v)
+		ever := noteEligible(w, st, vc)
+		var lapsed, never []*sim.Actor
+		for _, a := range w.Actors {
+			a := a
+			if eligibleByState(st, vc, a.Addr) {
+				continue
+			}
+			if ever[a.Addr] > 0 {
+				lapsed = append(lapsed, a)
+			} else {
+				never = append(never, a)
+			}
+			class := "non-identity"
+			if vc.IsValidated(a.Addr) {
+				class = "offline-identity"
+			}
+			add("ProposerPubKey", class, func(b *types.Block) bool {
+				signer, err := p256.NewVRFSigner(a.Key)
+				if err != nil {
+					return false
+				}
+				seedData := append(prev.Seed().Bytes(), common.ToBytes(prev.Height()+1)...)
+				hash, proof := signer.Evaluate(seedData)
+				ph(b).ProposerPubKey = a.Pub
+				ph(b).BlockSeed = hash
+				ph(b).SeedProof = proof
+				return true
+			})
+		}
+		// ... and with the whole block built by the ineligible key's own node on this head (coinbase-dependent roots
+		// and all commitments consistent): every key whose eligibility lapsed earlier in the history, one drawn other
+		selfBuilders := lapsed
+		if len(never) > 0 {
+			selfBuilders = append(append([]*sim.Actor{}, lapsed...), never[rapid.IntRange(0, len(never)-1).Draw(t, "selfBuilder")])
+		}
+		for _, a := range selfBuilders {
+			a := a
+			kind := "never-eligible"
+			if ever[a.Addr] > 0 {
+				kind = "lapsed"
+			}
+			add("ProposerPubKey", "self-built-by-"+kind+"-"+ineligibleClass(st, vc, a.Addr), func(b *types.Block) bool {
+				own, err := selfBuilt(v, a, len(b.Body.Transactions) > 0, pos%2 == 0)
+				if err != nil {
+					t.Fatalf("own node of %s on a copy of %s does not start: %v", a, v.Name, err)
+				}
+				b.Header, b.Body = own.Header, own.Body
+				return true
+			})
+		}
+		// body edits, with and without recomputing the transaction commitment (and body cid, bloom)
+		n := len(blk.Body.Transactions)
+		for _, rec := range []string{"", "+txhash", "+txhash+cid+bloom"} {
+			rec := rec
+			fix := func(b *types.Block) {
+				switch rec {
+				case "+txhash":
+					b.Header.ProposedHeader.TxHash = types.DeriveSha(types.Transactions(b.Body.Transactions))
+				case "+txhash+cid+bloom":
+					recomputeCommitments(v, b, len(b.Body.Transactions) == 0 || b.Header.ProposedHeader.TxReceiptsCid == nil)
+				}
+			}
+			if n > 0 {
+				i := pos % n
+				add("Body", "drop-tx"+rec, func(b *types.Block) bool {
+					b.Body.Transactions = append(append([]*types.Transaction{}, b.Body.Transactions[:i]...), b.Body.Transactions[i+1:]...)
+					fix(b)
+					return true
+				})
+				add("Body", "duplicate-tx"+rec, func(b *types.Block) bool {
+					b.Body.Transactions = append(b.Body.Transactions, b.Body.Transactions[i])
+					fix(b)
+					return true
+				})
+			}
+			// reordering with ALL commitments recomputed yields a different but consistent block when the two
+			// transactions commute (tx order is the proposer's choice), so it is not a negative
+			if n > 1 && rec != "+txhash+cid+bloom" {
+				i, j := pos%n, (pos/7+1)%n
+				if i != j {
+					add("Body", "swap-txs"+rec, func(b *types.Block) bool {
+						if b.Body.Transactions[i].Hash() == b.Body.Transactions[j].Hash() {
+							return false
+						}
+						b.Body.Transactions[i], b.Body.Transactions[j] = b.Body.Transactions[j], b.Body.Transactions[i]
+						fix(b)
+						return true
+					})
+				}
+			}
+			add("Body", "append-foreign-epoch-tx"+rec, func(b *types.Block) bool {
+				to := w.Actors[1].Addr
+				sender := w.Actors[0]
+				tx, _ := types.SignTx(&types.Transaction{Type: types.SendTx, Epoch: st.State.Epoch() + 1, AccountNonce: 1, To: &to, Amount: big.NewInt(1), MaxFee: sim.Dna(100)}, sender.Key)
+				b.Body.Transactions = append(b.Body.Transactions, tx)
+				fix(b)
+				return true
+			})
+			add("Body", "append-unaffordable-tx"+rec, func(b *types.Block) bool {
+				to := w.Actors[0].Addr
+				sender := w.Actors[len(w.Actors)-1]
+				bal := st.State.GetBalance(sender.Addr)
+				nonce := st.State.GetNonce(sender.Addr) + 1
+				if st.State.GetEpoch(sender.Addr) < st.State.Epoch() {
+					nonce = 1
+				}
+				for _, x := range b.Body.Transactions {
+					if s, _ := types.Sender(x); s == sender.Addr {
+						return false
+					}
+				}
+				tx, _ := types.SignTx(&types.Transaction{Type: types.SendTx, Epoch: st.State.Epoch(), AccountNonce: nonce, To: &to, Amount: new(big.Int).Add(bal, sim.Dna(1)), MaxFee: sim.Dna(100)}, sender.Key)
+				b.Body.Transactions = append(b.Body.Transactions, tx)
+				fix(b)
+				return true
+			})
+		}
+	}
+
+	before := image(v.DB)
+	headBefore, rootBefore, idRootBefore := v.Head().Hash(), v.AppState.State.Root(), v.AppState.IdentityState.Root()
+	verBefore := v.AppState.State.Version()
+	cells := 0
+	for _, op := range ops {
+		c := clone(t, blk)
+		if !op.apply(c) {
+			continue
+		}
+		// (a header with two parts keeps the hash of its proposed part: compare the headers' encodings too)
+		hb1, _ := c.Header.ToBytes()
+		hb2, _ := blk.Header.ToBytes()
+		if c.Hash() == blk.Hash() && len(c.Body.Transactions) == len(blk.Body.Transactions) && bytes.Equal(hb1, hb2) {
+			evid.Count("tamper.discarded_identical")
+			continue
+		}
+		evid.Eval()
+		cells++
+		cell := op.field + "/" + op.op
+		evid.Count("cell." + cell)
+		desc := fmt.Sprintf("%s of %s", cell, sim.BlockDesc(blk))
+		if err := v.Validate(c); err == nil {
+			// A body without one of its transactions and with ALL commitments recomputed is a different but
+			// consistent block when that transaction leaves no trace in the resulting state (e.g. a free
+			// transaction of an account that the same, validation-finishing block clears as dust): then every
+			// derived field does equal the recomputation. Decided by a differential: both blocks are inserted
+			// on copies and must give the same ledger.
+			if op.op == "drop-tx+txhash+cid+bloom" && sameLedgerAfter(v, blk, c) {
+				evid.Count("tamper.dropped_tx_without_effect")
+				continue
+			}
+			t.Fatalf("tampered block accepted by validation: %s\nhistory:\n%s", desc, h.Summary())
+		}
+		if err := v.AddBlock(c); err == nil {
+			t.Fatalf("tampered block inserted: %s\nhistory:\n%s", desc, h.Summary())
+		}
+		if v.Head().Hash() != headBefore || v.AppState.State.Root() != rootBefore || v.AppState.IdentityState.Root() != idRootBefore || v.AppState.State.Version() != verBefore {
+			t.Fatalf("rejected tampered block changed head/state: %s", desc)
+		}
+		if d := sameImage(before, image(v.DB)); d != "" {
+			t.Fatalf("rejected tampered block left a trace in the database (%s): %s", d, desc)
+		}
+		if interesting {
+			evid.NonTrivial(cell + "|" + sim.FlagNames(blk.Header.Flags()) + "|" + fmt.Sprint(len(blk.Body.Transactions) > 0) + "|" + fmt.Sprint(blk.IsEmpty()))
+		}
+	}
+	if !blk.IsEmpty() && len(blk.Header.ProposedHeader.TxReceiptsCid) > 0 {
+		evid.Count("block.with_receipts_tampered")
+		for i := 0; i < cells; i++ {
+			evid.Count("cells_on_blocks_with_receipts")
+		}
+	}
+	if interesting {
+		evid.Count("block.interesting_tampered")
+		evid.Sample("tampered-block", fmt.Sprintf("%s: %d tampers", sim.BlockDesc(blk), cells))
+	} else {
+		evid.Count("block.plain_tampered")
+	}
+	_ = strings.Join
+	_ = time.Second
+	return true // the honest original is delivered now and must still insert everywhere
 }
 
 // sameLedgerAfter inserts a and b on two copies of v and reports whether both are accepted and lead to the same
